@@ -290,7 +290,100 @@ def _argument_layers(fn: ast.FunctionDef, param: str) -> list:
     return env.get('self._arguments', ['old'])
 
 
+def r7_no_value_specialisation(run: Run, src, em):
+    """generated code may depend on a referenced cell only through the override-aware accessor: a translator that reads the
+    stored value of a cell a reference denotes (to fold it, to choose an emission by it) bakes the workbook value in, and an
+    override of that cell no longer reaches the formula"""
+    seen = {}
+    n = 0
+    for e in em.emissions():
+        if e.outcome.kind != 'return':
+            continue
+        n += 1
+        for eff in e.outcome.effects:
+            if eff.kind == 'cell-value-read':
+                seen.setdefault((e.translator, eff.detail['where']), e)
+    for (tr, where), e in sorted(seen.items()):
+        ci = src.cls(tr)
+        run.bad('C04.R7', f'{tr}/{where}', 'value-read-at-translation',
+                f'{where} (reached from {tr}, world {e.world[:100]}) reads the stored value of a cell that a reference token denotes: '
+                f'what is emitted then depends on the workbook value at translation time, and a later override of that cell does '
+                f'not reach the formula', loc=loc_of(ci.module.path, ci.node))
+    trs = sorted({e.translator for e in em.emissions()})
+    for tr in trs:
+        if not any(t == tr for (t, _) in seen):
+            run.ok('C04.R7', tr, 'no stored value of a referenced cell is read', nontrivial=True)
+    if n < 100:
+        raise AnalysisError('C04.R7', f'only {n} emissions analysed')
+
+
+def r2_eval(run: Run, rt):
+    """C04.R2/R3 decided by abstract evaluation (engine F) of _cell_preprocessor: an override hit returns the stored value --
+    whatever it is, 0 / FALSE / '' / None included -- and never runs the formula; a miss runs the generated member once; a cell
+    with neither gives the blank.  Independent of how the lookup is written (in-test, try/except, get with a sentinel ...)."""
+    from ..finite import Evaluator, AV, const_av, Unknown, AbsRaise
+    done = []
+    for cp in rt.copies():
+        fn = cp.members.get('_cell_preprocessor')
+        if fn is None:
+            continue
+        U, W = AV('str', text='other', val='_0_0_0'), AV('str', text='other', val='_0_9_9')
+        overrides = {'text': AV('str', text='other', val='OVR'), 'zero': const_av(0), 'FALSE': const_av(False), 'empty text': const_av(''),
+                     'None': const_av(None), 'number': const_av(7.5)}
+        scenarios = [('override hit: ' + k, v, True) for k, v in overrides.items()] + \
+                    [('override of a cell without member: ' + k, v, False) for k, v in list(overrides.items())[:2]] + \
+                    [('miss, formula cell', None, True), ('miss, no member', None, False)]
+        for name, ov, has_member in scenarios:
+            calls = []
+
+            def member(args, calls=calls):
+                calls.append(args)
+                return AV('str', text='other', val='CALC')
+            ev = Evaluator(cp.members, hooks={'EmptyCell': lambda e, a: AV('blank', sign='zero')}, max_depth=6)
+            args_map = AV('dict', items=((AV('tuple', items=(U, ov)),) if ov is not None else ()) +
+                          (AV('tuple', items=(W, const_av(1))),))
+            meth = AV('dict', items=(AV('tuple', items=(U, AV('func', val=('native', member)))),) if has_member else ())
+            ev.text_attrs = {'self._arguments': args_map, 'self.__dict__': AV('dict', items=()), 'self.__class__.__dict__': meth,
+                             'type(self).__dict__': meth}
+            construct = f'_cell_preprocessor[{cp.label}]/{name}'
+            try:
+                res = ev.call_method('_cell_preprocessor', [U])
+            except Unknown as u:
+                raise AnalysisError('C04.R2', f'{construct}: the abstraction cannot follow the helper ({u})')
+            except AbsRaise as r_:
+                run.bad('C04.R2', construct, f'raises:{r_.exc}', f'_cell_preprocessor raises {r_.exc} ({name})', loc=cp.loc(fn))
+                continue
+            if ov is not None:
+                same = res.kind == ov.kind and res.val == ov.val
+                run.check(same and not calls, 'C04.R2', construct, 'override-not-returned' if not same else 'formula-not-guarded',
+                          f'{name}: the overridden cell reports {res!r}' + (' and its original formula is still run' if calls else '') +
+                          f'; it must report the stored override {ov!r} itself and must not run the formula', fact=f'-> {res!r}',
+                          loc=cp.loc(fn))
+            elif has_member:
+                run.check(res.val == 'CALC' and len(calls) == 1, 'C04.R2', construct, 'formula-not-run',
+                          f'{name}: the cell reports {res!r} after {len(calls)} call(s) of its member', fact='member called once',
+                          loc=cp.loc(fn))
+            else:
+                run.check(res.kind == 'blank', 'C04.R3', construct, 'no-blank-fallback',
+                          f'{name}: a cell without override and without member reports {res!r}, not the blank', fact='blank',
+                          loc=cp.loc(fn))
+        done.append(cp.label)
+    return done
+
+
 def r2(run: Run, rt):
+    # decided by evaluation when the abstraction can follow the helper; the structural reading below is the fallback
+    try:
+        sub = Run('tmp', run.tier, run.seed, quiet=True)
+        r2_eval(sub, rt)
+        for o in sub.obligations:
+            if o['verdict'] == 'holds':
+                run.ok(o['rule'], o['construct'], o['fact'], loc=o['loc'])
+        for f in sub.findings:
+            run.bad(f['rule'], f['construct'], f['sub'], f['message'], loc=f['loc'])
+        return
+    except AnalysisError as e:
+        run.note(f'C04.R2 evaluation skipped: {e.reason[:120]}')
     for cp in rt.copies():
         fn = cp.members.get('_cell_preprocessor')
         if fn is None:
@@ -451,6 +544,9 @@ def run(run: Run):
     run.rule('C04.R5', 'every cell reference in emitted code is minted by the context for a registered member (shared with C03.R1)')
     borrow(run, 'C04.R5', c03.r1, src, get_grammar(src), get_emission(src), get_callgraph(src))
     run.floor('C04.R5', 10)
+    run.rule('C04.R7', 'no translator specialises the emitted code on the stored value of a referenced cell')
+    run.guard('C04.R7', r7_no_value_specialisation, run, src, get_emission(src))
+    run.floor('C04.R7', 20)
     from . import c08
     run.rule('C04.R6', 'no runtime method keeps computed values or other state between queries (shared with C08.R1/R4): an override '
                        'always reaches every dependent cell')
